@@ -22,7 +22,7 @@ import (
 	"verif/internal/wx"
 )
 
-var suite = vrt.NewSuite("C19", "(tree a, edit script, ignore paths, form): b is derived from a by 0-4 generated edits (change a scalar, replace a subtree by another kind, delete / add a member, set a member to null, append / drop array elements, no-op edits) and optionally by re-typing its numbers to other widths with the same value (int8..uint64, float32/64), or by planting numbers at and beyond the edges of int64 (uint64 / uint above MaxInt64, MinInt64, 2^63 and 2^64 as floats) in the same or different kinds on the two sides; both are compared as simple trees or, converted node by node, as gen trees; ignore paths are drawn from prefixes of paths that exist in a or b with wildcards mixed in. Oracle: a reference recursive comparison written from the documentation (numbers by exact value, a null member equals an absent one, extra array elements are differences at their index). Diff must return exactly the reference differences that no ignore path covers (for a length difference: at least one of the uncovered extra indexes, and nothing else); Compare must be nil exactly when Diff is empty and otherwise one of Diff's paths; Match(f, t) with f a generated sub-fingerprint of t (possibly edited) must equal the reference subset relation. Non-trivial = at least one real difference below the root, or an ignore path that covers a real difference; distinct = distinct (a, b, ignores, form)")
+var suite = vrt.NewSuite("C19", "(tree a, edit script, ignore paths, form): b is derived from a by 0-4 generated edits (change a scalar, replace a subtree by another kind, delete / add a member, set a member to null, append / drop array elements, no-op edits) and optionally by re-typing its numbers to other widths with the same value (int8..uint64, float32/64), or by planting numbers at and beyond the edges of int64 (uint64 / uint above MaxInt64, MinInt64, 2^63 and 2^64 as floats) in the same or different kinds on the two sides; both are compared as simple trees or, converted node by node, as gen trees; ignore paths are drawn from prefixes of paths that exist in a or b with wildcards mixed in. Oracle: a reference recursive comparison written from the documentation (numbers by exact value, a null member equals an absent one, extra array elements are differences at their index). Diff must return exactly the reference differences that no ignore path covers (for a length difference: at least one of the uncovered extra indexes, and nothing else); Compare must be nil exactly when Diff is empty and otherwise one of Diff's paths; Match(f, t) with f a generated sub-fingerprint of t (possibly edited) must equal the reference subset relation. plus every pair out of a pool of 16 values of one Go struct type (string, interface, slice, pointer and map fields, nil and not), by value and by pointer, against the same reference on the value trees they stand for. Non-trivial = at least one real difference below the root, or an ignore path that covers a real difference; distinct = distinct (a, b, ignores, form)")
 
 // El is a path element: key, index or wildcard.
 type El struct {
@@ -90,6 +90,7 @@ var widePool = []struct{ text, kind string }{
 func TestMain(m *testing.M) {
 	vrt.InitRapid()
 	vrt.RegisterReplay(suite, "diff", Run)
+	vrt.RegisterReplay(suite, "rec", RunRec)
 	suite.Register(classifiers...)
 	vrt.Main(m, suite)
 }
@@ -935,6 +936,116 @@ func drawCase(t *rapid.T) Case {
 		cs.FPEdits = drawEdits(t, f, 2, "fpedit")
 	}
 	return cs
+}
+
+// ---- the same on Go values of one struct type ----
+
+// rec is compared by reflection: Diff, Compare and Match take any Go value. The statement speaks
+// of value trees; a struct is one once its fields are read as members (see recTree).
+type rec struct {
+	Name string
+	Note any
+	Tags []string
+	In   *rec
+	M    map[string]*int64
+}
+
+// RecCase: indexes into recPool for the two sides.
+type RecCase struct {
+	A   int  `json:"a"`
+	B   int  `json:"b"`
+	Ptr bool `json:"ptr"`
+}
+
+func i64(n int64) *int64 { return &n }
+
+var recPool = []rec{
+	{},
+	{Name: "a"},
+	{Name: "a", Note: int64(5)},
+	{Name: "a", Note: "five"},
+	{Name: "b", Note: int64(5)},
+	{Name: "a", Tags: []string{"x"}},
+	{Name: "a", Tags: []string{"x", "y"}},
+	{Name: "a", Tags: []string{}},
+	{Name: "a", In: &rec{Name: "in"}},
+	{Name: "a", In: &rec{Name: "in", Note: true}},
+	{Name: "a", In: &rec{}},
+	{Name: "a", M: map[string]*int64{"k": i64(1)}},
+	{Name: "a", M: map[string]*int64{"k": nil}},
+	{Name: "a", M: map[string]*int64{"k": i64(1), "j": i64(2)}},
+	{Name: "a", M: map[string]*int64{}},
+	{Name: "a", Note: int64(5), Tags: []string{"x"}, In: &rec{Name: "in"}, M: map[string]*int64{"k": i64(1)}},
+}
+
+// recTree is the value tree a rec stands for (keys as alt decomposes them by default).
+func recTree(r *rec) any {
+	if r == nil {
+		return nil
+	}
+	// a slice or map that is nil is the empty list or object (that is how alt reads a Go value:
+	// Decompose(rec{}) has tags:[] and m:{}); a nil pointer or interface is null
+	l := make([]any, len(r.Tags))
+	for i, t := range r.Tags {
+		l[i] = t
+	}
+	mm := map[string]any{}
+	for k, v := range r.M {
+		if v == nil {
+			mm[k] = nil
+		} else {
+			mm[k] = *v
+		}
+	}
+	return map[string]any{"name": r.Name, "note": r.Note, "tags": l, "in": recTree(r.In), "m": mm}
+}
+
+func RunRec(cs RecCase, c *vrt.Ctx) {
+	ra, rb := recPool[cs.A%len(recPool)], recPool[cs.B%len(recPool)]
+	ta, tb := recTree(&ra), recTree(&rb)
+	var leaves []leaf
+	groups := 0
+	refDiff(ta, tb, nil, &groups, &leaves)
+	wantM := refMatch(ta, tb)
+	if len(leaves) > 0 {
+		c.NonTrivial()
+	}
+	var va, vb any = ra, rb
+	if cs.Ptr {
+		a2, b2 := ra, rb
+		va, vb = &a2, &b2
+	}
+	desc := fmt.Sprintf("a=%s b=%s ptr=%v", canon.String(ta, canon.Typed), canon.String(tb, canon.Typed), cs.Ptr)
+	var diffs []alt.Path
+	var cmp alt.Path
+	var gotM bool
+	if pv, stack := vrt.Catch(func() { diffs = alt.Diff(va, vb); cmp = alt.Compare(va, vb); gotM = alt.Match(va, vb) }); pv != nil {
+		c.Fail("panic", "alt.Diff(struct)", fmt.Sprintf("%v at %s; %s", pv, stack, desc))
+		return
+	}
+	if (len(diffs) == 0) != (len(leaves) == 0) {
+		c.Fail("struct-diff-emptiness", "alt.Diff", fmt.Sprintf("Diff returns %v, the trees differ at %d leaves; %s", diffs, len(leaves), desc))
+	}
+	if (cmp == nil) != (len(diffs) == 0) {
+		c.Fail("struct-compare-vs-diff", "alt.Compare", fmt.Sprintf("Compare %v Diff %v; %s", cmp, diffs, desc))
+	}
+	if gotM != wantM {
+		c.Fail("struct-match", "alt.Match", fmt.Sprintf("Match(a as fingerprint, b) = %v, every member of a matched in b: %v; %s", gotM, wantM, desc))
+	}
+}
+
+// TestEnumStructs: every pair of the pool, as values and as pointers.
+func TestEnumStructs(t *testing.T) {
+	n := 0
+	for a := range recPool {
+		for b := range recPool {
+			for _, ptr := range []bool{false, true} {
+				vrt.Eval(suite, "rec", RecCase{A: a, B: b, Ptr: ptr}, RunRec)
+				n++
+			}
+		}
+	}
+	suite.AddExtra("struct_pair_cases", int64(n))
 }
 
 func TestPropRandom(t *testing.T) {
